@@ -38,7 +38,7 @@ EXPLAIN = {
 
 def conc_build(kind):
     """kind: 'tsan' or 'plain'. Returns (exe or None, log)."""
-    hh = C.sha_files(C.repo_sources() + C.walk(C.HARNESS, (".cpp", ".hpp"))) + "-" + kind
+    hh = C.sha_files(C.repo_sources() + C.walk(C.HARNESS, (".cpp", ".hpp")) + [os.path.abspath(__file__)]) + "-" + kind
     d = os.path.join(C.CACHE, "c-" + hh)
     exe = os.path.join(d, "conc")
     if os.path.exists(exe):
@@ -49,7 +49,7 @@ def conc_build(kind):
     os.makedirs(tmp)
     inc = os.path.join(C.REPO, "inc")
     if kind == "tsan":
-        cc = ["clang++-14", "-std=c++17", "-O1", "-g", "-fsanitize=thread", "-DHV_VIRTUAL_CLOCK"]
+        cc = ["clang++-14", "-std=c++17", "-O0", "-g", "-fsanitize=thread", "-DHV_VIRTUAL_CLOCK", "-DHV_O0"]
         ld = ["clang++-14", "-fsanitize=thread"]
     else:
         cc = ["g++", "-std=c++17", "-O2", "-DHV_VIRTUAL_CLOCK", "-pthread"]
@@ -160,6 +160,9 @@ def histories(exe, kinds, seed, n, n_poll):
         if k not in ("utmap", "utset"):
             r3 = subprocess.run([exe, "hist", k, str(seed + 2), str(max(4, n_poll)), "2", "20", "260", "bigrange"], stdout=subprocess.PIPE, stderr=subprocess.PIPE, text=True)
             out.append(r3.stdout)
+        if k in ("tlru", "utlru", "utmap", "utset"):
+            r4 = subprocess.run([exe, "hist", k, str(seed + 3), str(max(4, n_poll // 2)), "3", "6", "260", "bigclean"], stdout=subprocess.PIPE, stderr=subprocess.PIPE, text=True)
+            out.append(r4.stdout)
         text = "".join(out)
         d = subprocess.run([C.DRIVER], input=text, stdout=subprocess.PIPE, stderr=subprocess.PIPE, text=True)
         scripts = [s for s in text.split("end\n") if s.strip()]
@@ -227,7 +230,7 @@ def main(prop, tier, seed, t0):
             print("VIOLATION property=%s replay=%s no-failing-input-found" % (prop, path))
             finish(prop, tier, seed, t0, audit, cov, 1, bad)
             return 1
-        n, npoll = (40, 30) if tier == "quick" else (1500, 600)
+        n, npoll = (40, 30) if tier == "quick" else (1500, 150)
         tot, fails, und, samples = histories(exe, kinds, seed, n, npoll)
         cov.update({"histories_checked": tot, "histories_undecided": und, "histories_not_linearizable": len(fails),
                     "threads_per_history": "3 x 4 calls (mix), 2 x 12 calls (poll: evicting inserts vs size()/empty()), 2 x 5 calls (bigrange: find_range over 200 keys vs insert_range rewriting the first and the last of them)",
